@@ -189,6 +189,8 @@ func verifMain() int {
 		return runReplay(c, os.Getenv("VERIF_REPLAY"))
 	case "probe":
 		return probeMain()
+	case "dumpvocab":
+		return dumpVocab()
 	}
 	fmt.Fprintln(os.Stderr, "unknown VERIF_MODE", mode)
 	return 2
